@@ -1,7 +1,7 @@
 use std::fmt;
 
 use annotate_snippets::{
-    AnnotationKind, Level, Renderer, Snippet as AnnotateSnippet, renderer::DecorStyle,
+    AnnotationKind, Group, Level, Renderer, Snippet as AnnotateSnippet, renderer::DecorStyle,
 };
 
 use crate::Location;
@@ -387,6 +387,39 @@ impl<'a> Snippet<'a> {
 
         let loc_prefix = l10n.snippet_location_prefix(*location);
 
+        // Prefer rustc-like caret markers and avoid ANSI colors in `Display` output.
+        // This keeps error strings stable (e.g. for tests) and avoids emitting escape
+        // sequences when the output is not a TTY.
+        let renderer = Renderer::plain().decor_style(DecorStyle::Ascii);
+
+        // The renderer drops the leading white space shared by all lines of the window once it
+        // is longer than 20 columns. A location inside that part would get its marker in the
+        // gutter, so such a window is printed by the plain window printer, which trims nothing.
+        if marker_inside_shared_margin(&window_text, local_start) {
+            let title = &[Group::with_title(
+                level.primary_title(format!("{}: {msg}", loc_prefix)),
+            )];
+            writeln!(f, "{}", renderer.render(title))?;
+            let max_display_row = window_start_absolute_row
+                .saturating_add(window_end_row)
+                .saturating_sub(window_start_row);
+            let gutter_width = max_display_row.to_string().len();
+            writeln!(
+                f,
+                "{:>gutter_width$}--> {}:{}:{}",
+                "", self.source.path, location.line, location.column
+            )?;
+            return fmt_snippet_window_with_mapping_or_fallback(
+                f,
+                l10n,
+                location,
+                self.source.text,
+                self.mapping,
+                msg,
+                self.crop_radius,
+            );
+        }
+
         let report = &[level
             .primary_title(format!("{}: {msg}", loc_prefix))
             .element(
@@ -401,12 +434,27 @@ impl<'a> Snippet<'a> {
                     ),
             )];
 
-        // Prefer rustc-like caret markers and avoid ANSI colors in `Display` output.
-        // This keeps error strings stable (e.g. for tests) and avoids emitting escape
-        // sequences when the output is not a TTY.
-        let renderer = Renderer::plain().decor_style(DecorStyle::Ascii);
         write!(f, "{}", renderer.render(report))
     }
+}
+
+/// True when the byte offset `marker` of `window` lies inside leading white space that every
+/// non-blank line of the window shares and that is long enough (more than 20 columns) for the
+/// snippet renderer to trim it.
+fn marker_inside_shared_margin(window: &str, marker: usize) -> bool {
+    const TRIMMED_ABOVE: usize = 20;
+    let shared = window
+        .lines()
+        .filter(|line| !line.trim().is_empty())
+        .map(|line| line.chars().take_while(|c| c.is_whitespace()).count())
+        .min()
+        .unwrap_or(0);
+    if shared <= TRIMMED_ABOVE {
+        return false;
+    }
+    let marker = marker.min(window.len());
+    let line_start = window[..marker].rfind('\n').map_or(0, |i| i + 1);
+    window[line_start..marker].chars().count() < shared
 }
 
 /// Like [`fmt_snippet_window_or_fallback`], but renders against a text fragment whose line
